@@ -1,5 +1,6 @@
 #!/bin/sh
-# setup.sh — run once after a fresh restore, offline: build the explorer from files on disk only.
+# setup.sh — run once after a fresh restore, offline: build the explorer from files on disk only
+# and warm the Go build cache (including the -race runtime used by the C13 free-running pass).
 set -eu
 export GOFLAGS=-mod=mod GOPROXY=off GOSUMDB=off GOTOOLCHAIN=local
 ROOT=$(cd "$(dirname "$0")" && pwd)
@@ -7,4 +8,9 @@ mkdir -p "$ROOT/bin" "$ROOT/evidence" "$ROOT/replays"
 cp /repo/go.sum "$ROOT/mc/go.sum"
 cd "$ROOT/mc"
 go build -o "$ROOT/bin/spdxmc" ./cmd/spdxmc
-echo "setup: spdxmc built"
+go build -o "$ROOT/bin/instr" ./cmd/instr
+T=$(mktemp -d)
+go build -race -o "$T/c13race" ./cmd/c13race
+"$ROOT/bin/instr" /repo "$ROOT/mc/_shim" "$T/ov" && go build -tags c13h -overlay "$T/ov/overlay.json" -o "$T/c13h" ./cmd/c13h || echo "setup: instrumented build not warmed (will be built at check time)"
+rm -rf "$T"
+echo "setup: spdxmc built, caches warm"
